@@ -356,7 +356,7 @@ def C14(V, tier):
         jobs += [mc(m, f"{m}_quick", a3), mc(m, f"{m}_quick2", a3), mc(m, f"{m}_quick3", a4)]
     if not quick:
         jobs += [mc("ProcTimeWindow", "ProcTimeWindow_thorough", a3), mc("ProcTimeWindow", "ProcTimeWindow_thorough2", a4),
-                 mc("SessionWindow", "SessionWindow_thorough", a4)]
+                 mc("SessionWindow", "SessionWindow_thorough", a3), mc("SessionWindow", "SessionWindow_thorough2", a4)]
     for m in ("ProcTimeWindow", "SessionWindow"):
         jobs += [gen(m, f"{m}_gen" if quick else f"{m}_gen_thorough"), gen(m, f"{m}_gen2"),
                  gen(m, f"{m}_gen_sim", simulate=150 if quick else 4000)]
